@@ -146,7 +146,8 @@ fn replay(path: &str) -> ! {
             println!("  trace: {}", t.as_str().unwrap_or(""));
         }
     }
-    match (prop.judge)(&case) {
+    let verdict = if case.kind.starts_with("seq|") { props::judge_seq(prop.judge, &case) } else { (prop.judge)(&case) };
+    match verdict {
         Verdict::Holds => {
             println!("HOLDS property={} (the recorded case no longer violates)", id);
             std::process::exit(0);
